@@ -12,7 +12,7 @@
    over ([orders]); the theorems hold for all of them. *)
 From Coq Require Import List.
 Import ListNotations.
-From Oras Require Import Model.OciIndex Proofs.OciIndex.
+From Oras Require Import Model.OciIndex Proofs.OciIndex Model.TarFS Proofs.TarFS.
 
 (* AutoSaveIndex on: after EVERY history of Push/Tag/Untag/Delete/GC/SaveIndex/read-write
    reopen (any AutoGC setting, any map orders), the store reopened from the directory
@@ -108,6 +108,22 @@ Theorem C08_gc_hang_prefix :
   snd r = ROk /\ obs_exists (fst r) 1 = false.
 Proof. exact prefix_gc_hangs. Qed.
 Print Assumptions C08_gc_hang_prefix.
+
+(* NewFromTar reads through internal/fs/tarfs, NewFromFS(os.DirFS) through the directory:
+   for an archive of the directory (any mix of "./"-style / unclean names, directory and
+   link entries, stale earlier copies: the last entry of a cleaned name is the file) both
+   open every file of the directory and every name that is in neither alike; this is
+   why the model has one [reopen] (loadIndex over an fs.FS) for the three ways. *)
+Theorem C08_tar_view :
+  forall (clean : nat -> nat) (tar : list tentry) (d : dirfs),
+    archives clean tar d ->
+    forall p,
+      (dlookup p d <> None \/ (forall e, In e tar -> clean (te_raw e) <> p) ->
+       tar_open clean tar p = dir_open d p) /\
+      (dlookup p d = None -> (exists e, In e tar /\ clean (te_raw e) = p) ->
+       tar_open clean tar p = FUnsupported).
+Proof. exact tar_view. Qed.
+Print Assumptions C08_tar_view.
 
 (* why tag names must not be digest strings of other nodes *)
 Theorem C08_inconsistent_reference_example :
